@@ -366,6 +366,10 @@ func (b *Buffer) grow(n int) {
 	} else {
 		newLen = cap(b.core) * 2
 	}
+	// doubling once is not enough for a large write (e.g. a publish command with long url parameters)
+	for newLen-b.writePos < n {
+		newLen *= 2
+	}
 	buf := make([]byte, newLen)
 	Log.Debugf("Buffer::grow. need=%d, old len=%d, cap=%d, new len=%d", n, b.Len(), cap(b.core), newLen)
 	copy(buf, b.core[b.readPos:b.writePos])
